@@ -1,7 +1,9 @@
 (* ServerBytes.v — the server from the request BODY:
 
      request.Decode(body)                 MessageBytes.decode_message   (CAR, block table, root message)
-     every block of the table as a token  TokenView.view_block          (typed decoding, the accessors)
+     every block of the table as a token  LinkIntegrity.token_at        (delegation.Data(): the fields of
+                                          TokenView.view_block when the block's CID is the dag-cbor /
+                                          sha2-256 CIDv1 of its bytes, NO field otherwise)
      server.Execute                       Server.execute                (Run per invocation, validator.Access)
 
    composed into serve_bytes : body -> served.  Links are numbered by MessageBytes.bstr_code, an
@@ -11,13 +13,10 @@
 From Ucanto Require Import Base Varint Ipld Cbor Formats Blockstore MessageFormat Cid Car BaseEnc DagJson Signing.
 From Ucanto Require Import MessageBytes TokenBytes.
 From Ucanto Require Import Pattern Time Validator ValidatorSpec ValidatorTerm Server ServerTotal EndToEnd TokenView.
-From Coq Require Import ZifyBool ZifyN ZifyNat.
+From Ucanto Require Export LinkId.
+From Ucanto Require Import LinkIntegrity.
+From Coq Require Import ZifyBool ZifyN ZifyNat Permutation.
 Open Scope N_scope.
-
-Definition lid : bstr -> link := bstr_code.
-
-Lemma lid_inj a b : lid a = lid b -> a = b.
-Proof. apply bstr_code_inj. Qed.
 
 (* the block table as a function of link numbers: the first block whose CID has that number *)
 Definition B_of (blocks : list (bstr * bstr)) (l : link) : option bstr :=
@@ -84,9 +83,12 @@ Section Serve.
   Notation decode := (decode_message mh_digest hdr_oracle).
 
   (* the token store of a request: every block of the request (and of the resolver), read as the
-     accessors read it *)
+     accessors read it — delegation.Data() -> block.Decode: the typed view of the bytes when the
+     block's CID is the dag-cbor / sha2-256 CIDv1 of its bytes (LinkIntegrity.bound), the token
+     without fields otherwise.  The CAR reader accepts every self-consistent CID (raw, CIDv0,
+     dag-json, other hash functions): such blocks ARE in the table, as delegations without fields. *)
   Definition view_tbl (bl : list (bstr * bstr)) : list (link * token) :=
-    map (fun cb => (lid (fst cb), view (snd cb))) bl.
+    map (fun cb => (lid (fst cb), token_at mh_digest view (fst cb) (snd cb))) bl.
 
   (* the table of views is computed ONCE (let-bound outside the function: what makes the
      evaluation of serve_bytes on real request bodies cheap) *)
@@ -94,12 +96,60 @@ Section Serve.
     let tbl := view_tbl (blocks ++ extb) in
     fun l => match find (fun e => fst e =? l) tbl with Some e => Some (snd e) | None => None end.
 
-  (* pointwise it is TokenView.store_of of the block table *)
-  Lemma U_of_spec blocks l :
-    U_of blocks l = option_map (view_block lid keys valid alg_of) (B_of (blocks ++ extb) l).
+  Notation vb := (view_block lid keys valid alg_of).
+
+  Lemma token_at_view c b : token_at mh_digest view c b = token_at mh_digest vb c b.
+  Proof. unfold token_at, fields. rewrite Hview. reflexivity. Qed.
+
+  (* pointwise it is LinkIntegrity.ustore_of of the block table: the validator's world in which
+     `U l` is the token whose bytes hash to l *)
+  Lemma U_of_spec blocks l : U_of blocks l = ustore_of mh_digest vb (blocks ++ extb) l.
   Proof.
-    unfold U_of, B_of, view_tbl. cbv zeta. induction (blocks ++ extb) as [|[k v] bl IH]; [reflexivity|].
-    cbn [map find fst snd]. destruct (lid k =? l); [cbn [option_map]; rewrite Hview; reflexivity | exact IH].
+    unfold U_of, ustore_of, view_tbl. cbv zeta. induction (blocks ++ extb) as [|[k v] bl IH]; [reflexivity|].
+    cbn [map find fst snd]. destruct (lid k =? l); [rewrite token_at_view; reflexivity | exact IH].
+  Qed.
+
+  (* a token of the store is the first block under that link number: the typed view of its bytes
+     when they hash to the link, the token without fields otherwise *)
+  Lemma U_of_cases blocks l t :
+    U_of blocks l = Some t ->
+    exists c b, lid c = l /\ In (c, b) (blocks ++ extb) /\ B_of (blocks ++ extb) l = Some b /\
+      t = token_at mh_digest vb c b /\
+      ((cid_of mh_digest b = Some c /\ t = vb b) \/ (cid_of mh_digest b <> Some c /\ t = empty_token)).
+  Proof.
+    rewrite U_of_spec. unfold ustore_of, B_of.
+    destruct (find (fun cb => lid (fst cb) =? l) (blocks ++ extb)) as [[c b]|] eqn:F; [|discriminate].
+    cbn [fst snd]. intros E. apply some_inj in E. subst t.
+    apply find_some in F. destruct F as [I H]. cbn [fst] in H. apply N.eqb_eq in H.
+    exists c, b. split; [exact H|]. split; [exact I|]. split; [reflexivity|]. split; [reflexivity|].
+    unfold token_at. destruct (fields mh_digest vb c b) as [t|] eqn:Fd.
+    - apply fields_some in Fd. destruct Fd as [Ec Ev]. left. auto.
+    - right. split; [|reflexivity]. intros Ec.
+      assert (X : fields mh_digest vb c b = Some (vb b)) by (apply fields_some; auto). congruence.
+  Qed.
+
+  (* the first block under a link number that is bound is read with its fields *)
+  Lemma U_of_bound blocks c b :
+    B_of (blocks ++ extb) (lid c) = Some b -> cid_of mh_digest b = Some c -> U_of blocks (lid c) = Some (vb b).
+  Proof.
+    intros HB Ec. rewrite U_of_spec. unfold ustore_of. unfold B_of in HB.
+    destruct (find (fun cb => lid (fst cb) =? lid c) (blocks ++ extb)) as [[c' b']|] eqn:F; [|discriminate].
+    cbn [fst snd] in *. apply some_inj in HB. subst b'.
+    apply find_some in F. destruct F as [_ H]. cbn [fst] in H. apply N.eqb_eq in H. apply lid_inj in H. subst c'.
+    f_equal. unfold token_at.
+    assert (X : fields mh_digest vb c b = Some (vb b)) by (apply fields_some; auto). rewrite X. reflexivity.
+  Qed.
+
+  (* ... and one that is NOT bound (the same bytes under a raw / CIDv0 / dag-json / ... CID) is
+     present as the token without fields *)
+  Lemma U_of_unbound blocks c b :
+    B_of (blocks ++ extb) (lid c) = Some b -> cid_of mh_digest b <> Some c -> U_of blocks (lid c) = Some empty_token.
+  Proof.
+    intros HB Ec. rewrite U_of_spec. unfold ustore_of. unfold B_of in HB.
+    destruct (find (fun cb => lid (fst cb) =? lid c) (blocks ++ extb)) as [[c' b']|] eqn:F; [|discriminate].
+    cbn [fst snd] in *. apply some_inj in HB. subst b'.
+    apply find_some in F. destruct F as [_ H]. cbn [fst] in H. apply N.eqb_eq in H. apply lid_inj in H. subst c'.
+    f_equal. unfold token_at. rewrite (fields_unbound mh_digest vb c b Ec). reflexivity.
   Qed.
 
   Definition blocks_of (d : decoded) : list (bstr * bstr) := tbl_blocks (d_store d).
@@ -143,18 +193,17 @@ Section Serve.
 
   (* a bound on the number of proofs any block of the request cites *)
   Definition prf_bound (blocks : list (bstr * bstr)) : nat :=
-    S (fold_right (fun cb acc => Nat.max (length (t_prf (view (snd cb)))) acc) 0%nat (blocks ++ extb)).
+    S (fold_right (fun cb acc => Nat.max (length (t_prf (token_at mh_digest view (fst cb) (snd cb)))) acc) 0%nat (blocks ++ extb)).
 
   Lemma prf_bound_pos blocks : (0 < prf_bound blocks)%nat.
   Proof. unfold prf_bound. lia. Qed.
 
   Lemma prf_bound_spec blocks l t : U_of blocks l = Some t -> (length (t_prf t) <= prf_bound blocks)%nat.
   Proof.
-    rewrite U_of_spec. destruct (B_of (blocks ++ extb) l) as [data|] eqn:E; [|discriminate].
-    cbn [option_map]. intros H. inversion H; subst. clear H.
-    apply B_of_some in E. destruct E as [c [I _]]. unfold prf_bound.
-    induction (blocks ++ extb) as [|[k v] bl IH]; [destruct I|]. cbn [fold_right snd]. destruct I as [E|I].
-    - inversion E; subst. rewrite Hview. lia.
+    intros H. destruct (U_of_cases blocks l t H) as (c & b & _ & I & _ & Et & _). subst t.
+    unfold prf_bound.
+    induction (blocks ++ extb) as [|[k v] bl IH]; [destruct I|]. cbn [fold_right fst snd]. destruct I as [E|I].
+    - inversion E; subst. rewrite token_at_view. lia.
     - specialize (IH I). lia.
   Qed.
 
@@ -188,10 +237,33 @@ Section Serve.
     destruct (tbl_get s k) as [d'|] eqn:G; [|discriminate]. inversion F; subst. exact G.
   Qed.
 
+  (* the signature clause at byte level (TokenView.sig_ok_bytes) together with the binding of the
+     block to the delegation's link: the block whose signed bytes are examined is the first block
+     carried under a CID c with that link number, and c IS the dag-cbor / sha2-256 CID of its bytes *)
+  Definition sig_ok_bound (bl : list (bstr * bstr)) (d : dlg) (t : token) (v : verifier) : Prop :=
+    sig_ok_bytes (B_of bl) lid keys valid alg_of d t v /\
+    exists c b, d_link d = lid c /\ B_of bl (d_link d) = Some b /\ cid_of mh_digest b = Some c /\ t = vb b.
+
+  Lemma sig_ok_to_bound blocks d t v :
+    tok (U_of blocks) d = Some t -> sig_ok t v -> sig_ok_bound (blocks ++ extb) d t v.
+  Proof.
+    unfold tok. intros T S.
+    destruct (U_of_cases blocks (d_link d) t T) as (c & b & L & I & HB & _ & [[Ec Et]|[_ Et]]).
+    - split.
+      + (* the store that holds the plain view of that block agrees with U_of at this link *)
+        apply (sig_ok_to_bytes_U (B_of (blocks ++ extb)) lid keys valid alg_of
+                 (fun l => option_map vb (B_of (blocks ++ extb) l)) (fun l => eq_refl)); [|exact S].
+        unfold tok. rewrite HB. cbn [option_map]. rewrite Et. reflexivity.
+      + exists c, b. auto.
+    - (* a delegation without fields has no signature any verifier accepts *)
+      subst t. destruct S as [_ [_ Es]]. discriminate Es.
+  Qed.
+
   (* Every handler call made for a request body belongs to an entry of the message's execute list
-     whose block travelled in the body, decodes (typed decoding) to a UCAN with exactly one
-     capability that names the handler, and carries a complete valid chain: the specification P of
-     C01, with every signature clause stated on the signed bytes of a block of this body. *)
+     whose block travelled in the body UNDER THE dag-cbor / sha2-256 CID OF ITS BYTES, decodes
+     (typed decoding) to a UCAN with exactly one capability that names the handler, and carries a
+     complete valid chain: the specification P of C01, with every signature clause stated on the
+     signed bytes of a block of this body (or of the resolver) that is bound to its link. *)
   Theorem serve_bytes_calls_have_valid_chains body rep calls :
     (forall l p, resolve_proof (s_ctx srv) l = Some p -> d_link p = l) ->
     serve_bytes body = SDone (ExecOk rep calls) ->
@@ -199,34 +271,161 @@ Section Serve.
     forall k, In k calls ->
     exists cid data ut h a c,
       In cid (invocations_bytes (d_msg d)) /\ tbl_get (d_store d) cid = Some data /\
+      cid_of mh_digest data = Some cid /\
       token_decode_typed data = Some ut /\
       map (view_cap lid) (u_att ut) = [c] /\ find_handler (r_can c) (s_service srv) = Some h /\
       k = (h_can h, node_cap a) /\
       let U := U_of (blocks_of d) in
       let inv := mkDlg (lid cid) (vis_of (blocks_of d)) in
       P U (s_ctx srv) fuel (h_desc h) [inv] a /\
-      P_sg U (s_ctx srv) (sig_ok_bytes (B_of (blocks_of d ++ extb)) lid keys valid alg_of) fuel (h_desc h) [inv] a.
+      P_sg U (s_ctx srv) (sig_ok_bytes (B_of (blocks_of d ++ extb)) lid keys valid alg_of) fuel (h_desc h) [inv] a /\
+      P_sg U (s_ctx srv) (sig_ok_bound (blocks_of d ++ extb)) fuel (h_desc h) [inv] a.
   Proof.
     intros Hres H. apply serve_bytes_done in H. destruct H as [d [D E]]. exists d. split; [exact D|].
     intros k Hk. unfold serve_decoded in E. symmetry in E.
     destruct (request_calls_have_valid_chains (U_of (blocks_of d)) fuel srv Hres _ _ _ _ E k Hk)
       as (l & h & a & t & c & Hl & Hv & Ek & Ht & Hc & Hf & HP).
     unfold exec_of in Hl. apply in_map_iff in Hl. destruct Hl as [cid [El Hcid]]. subst l.
-    (* the invocation's token is the view of a block of the table *)
-    unfold tok in Ht. rewrite U_of_spec in Ht. cbn [d_link] in Ht.
-    destruct (B_of_app_vis (blocks_of d) extb (lid cid) Hv) as [EB _]. rewrite EB in Ht.
-    destruct (B_of (blocks_of d) (lid cid)) as [data|] eqn:B; [|discriminate].
-    cbn [option_map] in Ht. inversion Ht as [Ht']. clear Ht.
-    apply B_of_some in B. destruct B as [c' [I Ec]]. apply lid_inj in Ec. subst c'.
+    (* the invocation's token is that of the first block of the table under its link *)
+    unfold tok in Ht. cbn [d_link] in Ht.
+    destruct (U_of_cases (blocks_of d) (lid cid) t Ht) as (c' & data & Ec & _ & HB & _ & Cs).
+    apply lid_inj in Ec. subst c'.
+    destruct (B_of_app_vis (blocks_of d) extb (lid cid) Hv) as [EB _]. rewrite EB in HB.
+    apply B_of_some in HB. destruct HB as [c' [I Ec]]. apply lid_inj in Ec. subst c'.
     apply tbl_blocks_get in I.
+    destruct Cs as [[Hb Et]|[_ Et]]; [|subst t; discriminate Hc].
     destruct (token_decode_typed data) as [ut|] eqn:TD.
-    - rewrite (view_block_decoded lid keys valid alg_of data ut TD) in Ht'. subst t.
+    - rewrite (view_block_decoded lid keys valid alg_of data ut TD) in Et. subst t.
       cbn [view_token view_token_with t_caps] in Hc.
       exists cid, data, ut, h, a, c. cbv zeta.
-      split; [exact Hcid|]. split; [exact I|]. split; [exact TD|]. split; [exact Hc|].
-      split; [exact Hf|]. split; [exact Ek|]. split; [exact HP|].
-      apply P_to_sg; [apply sig_ok_to_bytes_U; apply U_of_spec | exact HP].
-    - rewrite (view_block_undecodable lid keys valid alg_of data TD) in Ht'. subst t. discriminate Hc.
+      split; [exact Hcid|]. split; [exact I|]. split; [exact Hb|]. split; [exact TD|]. split; [exact Hc|].
+      split; [exact Hf|]. split; [exact Ek|]. split; [exact HP|]. split.
+      + apply P_to_sg; [|exact HP]. intros d0 t0 v0 T0 S0. exact (proj1 (sig_ok_to_bound _ d0 t0 v0 T0 S0)).
+      + apply P_to_sg; [apply sig_ok_to_bound | exact HP].
+    - rewrite (view_block_undecodable lid keys valid alg_of data TD) in Et. subst t. discriminate Hc.
+  Qed.
+
+  (* ---------------------------------------------------------------- *)
+  (* a token that travels under a CID other than the dag-cbor / sha2-256 CID of its bytes *)
+
+  Lemma view_tbl_app a b : view_tbl (a ++ b) = view_tbl a ++ view_tbl b.
+  Proof. unfold view_tbl. apply map_app. Qed.
+
+  (* its entry of the token table is the token without fields: the same entry any bytes that are
+     no UCAN at all (the message's root block, say) would have under that CID *)
+  Lemma view_tbl_relabelled pre c b post :
+    cid_of mh_digest b <> Some c ->
+    view_tbl (pre ++ (c, b) :: post) = view_tbl pre ++ (lid c, empty_token) :: view_tbl post.
+  Proof.
+    intros NE. rewrite view_tbl_app. f_equal. unfold view_tbl. cbn [map fst snd]. f_equal. f_equal.
+    unfold token_at. rewrite (fields_unbound mh_digest view c b NE). reflexivity.
+  Qed.
+
+  Lemma view_tbl_no_token pre c b' post :
+    token_decode_typed b' = None ->
+    view_tbl (pre ++ (c, b') :: post) = view_tbl pre ++ (lid c, empty_token) :: view_tbl post.
+  Proof.
+    intros TD. rewrite view_tbl_app. f_equal. unfold view_tbl. cbn [map fst snd]. f_equal. f_equal.
+    unfold token_at, fields. destruct (bound mh_digest c b'); [|reflexivity].
+    rewrite Hview. apply view_block_undecodable. exact TD.
+  Qed.
+
+  (* A request in which a token travels under a CID c other than cid_of of its bytes b is served
+     exactly as if that block carried bytes b' that are no UCAN — a token without fields —: the
+     entry of the relabelled block in the server's token table is (lid c, empty_token), the same
+     execute list, the same visible blocks, hence the same receipts and the same handler calls. *)
+  Theorem serve_bytes_relabelled_no_fields body d pre c b post :
+    decode body = Some d -> blocks_of d = pre ++ (c, b) :: post -> cid_of mh_digest b <> Some c ->
+    token_at mh_digest view c b = empty_token /\
+    (~ In c (map fst pre) -> U_of (blocks_of d) (lid c) = Some empty_token) /\
+    forall b', token_decode_typed b' = None ->
+      serve_bytes body =
+      SDone (execute (U_of (pre ++ (c, b') :: post)) fuel srv (vis_of (blocks_of d)) (exec_of (d_msg d))).
+  Proof.
+    intros D EB NE. split; [|split].
+    - unfold token_at. rewrite (fields_unbound mh_digest view c b NE). reflexivity.
+    - intros NI. apply (U_of_unbound (blocks_of d) c b); [|exact NE].
+      rewrite EB. unfold B_of. rewrite <- app_assoc. cbn [app].
+      clear EB. induction pre as [|[k v] pre IH]; cbn [app find fst snd map] in *.
+      + rewrite N.eqb_refl. reflexivity.
+      + destruct (lid k =? lid c) eqn:L.
+        * apply N.eqb_eq in L. apply lid_inj in L. subst k. exfalso. apply NI. left. reflexivity.
+        * apply IH. intros X. apply NI. right. exact X.
+    - intros b' TD. unfold serve_bytes. rewrite D. unfold serve_decoded. f_equal.
+      assert (EU : U_of (blocks_of d) = U_of (pre ++ (c, b') :: post)).
+      { unfold U_of. rewrite EB. rewrite <- !app_assoc. cbn [app].
+        rewrite (view_tbl_relabelled pre c b (post ++ extb) NE), (view_tbl_no_token pre c b' (post ++ extb) TD).
+        reflexivity. }
+      rewrite EU. reflexivity.
+  Qed.
+
+  (* every block of the decoded request is filed under its CID in the block table *)
+  Lemma blocks_of_B d cid data : In (cid, data) (blocks_of d) -> B_of (blocks_of d ++ extb) (lid cid) = Some data.
+  Proof.
+    intros I.
+    assert (V : In (lid cid) (vis_of (blocks_of d))) by (unfold vis_of; apply in_map_iff; exists (cid, data); auto).
+    destruct (B_of_app_vis (blocks_of d) extb (lid cid) V) as [E NN]. rewrite E.
+    destruct (B_of (blocks_of d) (lid cid)) as [data'|] eqn:HB; [|contradiction].
+    apply B_of_some in HB. destruct HB as [c' [I' Ec]]. apply lid_inj in Ec. subst c'.
+    unfold blocks_of in *. apply tbl_blocks_get in I. apply tbl_blocks_get in I'. congruence.
+  Qed.
+
+  Lemma run_all_no_calls U invs :
+    (forall i, In i invs -> forall rc cs, run U fuel srv i = Some (rc, cs) -> cs = []) ->
+    forall rcs calls, run_all U fuel srv invs = Some (rcs, calls) -> calls = [].
+  Proof.
+    induction invs as [|i invs IH]; intros H rcs calls R; cbn [run_all] in R.
+    - inversion R. reflexivity.
+    - destruct (run U fuel srv i) as [[rc cs]|] eqn:R1; [|discriminate].
+      destruct (run_all U fuel srv invs) as [[rcs' css]|] eqn:R2; [|discriminate].
+      inversion R; subst. rewrite (H i (or_introl eq_refl) rc cs R1).
+      cbn [app]. apply (IH (fun j Hj => H j (or_intror Hj)) rcs' css eq_refl).
+  Qed.
+
+  (* An invocation that travels under a CID other than cid_of of its bytes never makes a handler
+     run: server.Run answers it with the InvocationCapabilityError receipt (no capability is read)
+     and calls nothing, whatever the bytes say, whatever the other blocks are; in the report of
+     the request that receipt is filed under the relabelled link; and a request all of whose
+     execute-list entries are relabelled makes no handler call at all.  (The converse half is the
+     clause cid_of data = Some cid of serve_bytes_calls_have_valid_chains.) *)
+  Theorem serve_bytes_relabelled_runs_nothing body d cid data :
+    decode body = Some d -> In (cid, data) (blocks_of d) -> cid_of mh_digest data <> Some cid ->
+    let rc := mkRcpt (lid cid) (s_id srv) (RErr e_capability) no_fx in
+    (forall vis, run (U_of (blocks_of d)) fuel srv (mkDlg (lid cid) vis) = Some (rc, [])) /\
+    (forall rep calls, serve_bytes body = SDone (ExecOk rep calls) ->
+       In cid (invocations_bytes (d_msg d)) -> rget (lid cid) rep = Some rc).
+  Proof.
+    intros D I NE rc.
+    assert (R : forall vis, run (U_of (blocks_of d)) fuel srv (mkDlg (lid cid) vis) = Some (rc, [])).
+    { intros vis. apply (run_cap_count (U_of (blocks_of d)) fuel srv (mkDlg (lid cid) vis) empty_token).
+      - unfold tok. cbn [d_link]. apply (U_of_unbound (blocks_of d) cid data); [apply blocks_of_B; exact I | exact NE].
+      - cbn. discriminate. }
+    split; [exact R|].
+    intros rep calls H Hin. unfold serve_bytes in H. rewrite D in H. inversion H as [H']. clear H.
+    unfold serve_decoded, execute in H'.
+    destruct (execute_one_receipt_each (U_of (blocks_of d)) fuel srv _ _ (fun x => x) rep calls
+                (fun rs => Permutation_refl rs) H') as [A _].
+    assert (Hl : In (lid cid) (exec_of (d_msg d))) by (unfold exec_of; apply in_map; exact Hin).
+    destruct (A _ Hl) as (r & cs & G & _ & _ & R'). rewrite R in R'. inversion R'; subst. exact G.
+  Qed.
+
+  Theorem serve_bytes_all_relabelled_no_calls body d rep calls :
+    decode body = Some d ->
+    (forall cid, In cid (invocations_bytes (d_msg d)) ->
+       exists data, In (cid, data) (blocks_of d) /\ cid_of mh_digest data <> Some cid) ->
+    serve_bytes body = SDone (ExecOk rep calls) -> calls = [].
+  Proof.
+    intros D HA H. unfold serve_bytes in H. rewrite D in H. inversion H as [H']. clear H.
+    unfold serve_decoded, execute, execute_sched in H'.
+    destruct (forallb _ _); [|discriminate].
+    destruct (run_all _ _ _ _) as [[rcs cs]|] eqn:RA; [|discriminate]. inversion H'; subst. clear H'.
+    refine (run_all_no_calls _ _ _ _ _ RA). intros i Hi rc0 cs0 R0.
+    apply in_map_iff in Hi. destruct Hi as [l [<- Hl]].
+    destruct (dedupe_spec [] (exec_of (d_msg d))) as [_ Hd]. apply Hd in Hl. destruct Hl as [Hl _].
+    unfold exec_of in Hl. apply in_map_iff in Hl. destruct Hl as [cid [<- Hcid]].
+    destruct (HA cid Hcid) as [data [I NE]].
+    destruct (serve_bytes_relabelled_runs_nothing body d cid data D I NE) as [R _].
+    rewrite R in R0. inversion R0. reflexivity.
   Qed.
 
   (* ---------------------------------------------------------------- *)
@@ -293,26 +492,93 @@ Section Serve.
     change (field_id k_msg7) with (@None fid). reflexivity.
   Qed.
 
+  (* (the tokens' blocks are bound: the library's encoder — block.Encode, dag-cbor / sha2-256 —
+     files every token under cid_of of its bytes, see enc_toks below; a token under any other CID
+     is the token without fields, serve_bytes_relabelled_no_fields) *)
   Theorem serve_bytes_world m root toks :
     wf_ipld (message_ipld m) = true -> in_budget (message_ipld m) = true ->
     let blocks := request_blocks toks root m in
     NoDup (map fst blocks) ->
     (forall c t, In (c, t) toks ->
        wf_ipld (token_ipld t) = true /\ in_budget (token_ipld t) = true /\ token_typed_ok t = true /\ u_fct t <> Some []) ->
+    (forall c t, In (c, t) toks -> cid_of mh_digest (token_bytes t) = Some c ->
+       U_of blocks (lid c) = Some (view_token lid keys valid alg_of (canon_token t))) /\
+    (forall c t, In (c, t) toks -> cid_of mh_digest (token_bytes t) <> Some c ->
+       U_of blocks (lid c) = Some empty_token) /\
+    U_of blocks (lid root) = Some empty_token /\
+    (forall l, ~ In l (vis_of (blocks ++ extb)) -> U_of blocks l = None).
+  Proof.
+    intros W B blocks ND HT.
+    assert (HB : forall c t, In (c, t) toks -> B_of (blocks ++ extb) (lid c) = Some (token_bytes t)).
+    { intros c t I. apply (B_of_app_in blocks extb c (token_bytes t) ND).
+      apply in_or_app. left. apply in_map_iff. exists (c, t). auto. }
+    split; [|split; [|split]].
+    - intros c t I Ec. destruct (HT c t I) as [Wt [Bt [Tt NF]]].
+      rewrite (U_of_bound blocks c (token_bytes t) (HB c t I) Ec).
+      f_equal. apply view_block_bytes; assumption.
+    - intros c t I Ec. exact (U_of_unbound blocks c (token_bytes t) (HB c t I) Ec).
+    - assert (HR : B_of (blocks ++ extb) (lid root) = Some (message_bytes m)).
+      { apply (B_of_app_in blocks extb root (message_bytes m) ND). apply in_or_app. right. left. reflexivity. }
+      destruct (U_of blocks (lid root)) as [t|] eqn:E.
+      + destruct (U_of_cases blocks (lid root) t E) as (c & b & _ & _ & HB' & _ & [[_ Et]|[_ Et]]); [|congruence].
+        rewrite HR in HB'. apply some_inj in HB'. subst b. rewrite Et. f_equal.
+        apply view_block_undecodable. apply message_not_a_token; assumption.
+      + exfalso. rewrite U_of_spec in E. unfold ustore_of in E. unfold B_of in HR.
+        destruct (find (fun cb => lid (fst cb) =? lid root) (blocks ++ extb)); discriminate.
+    - intros l NI. rewrite U_of_spec. unfold ustore_of. pose proof (B_of_none (blocks ++ extb) l NI) as X.
+      unfold B_of in X. destruct (find (fun cb => lid (fst cb) =? l) (blocks ++ extb)); [discriminate | reflexivity].
+  Qed.
+
+  (* the library's encoder (delegation.Delegate / invocation.Invoke -> block.Encode with the
+     dag-cbor codec and the sha2-256 hasher): every token is filed under cid_of of its bytes *)
+  Fixpoint enc_toks (ts : list utoken) : option (list (bstr * utoken)) :=
+    match ts with
+    | [] => Some []
+    | t :: r =>
+      match cid_of mh_digest (token_bytes t), enc_toks r with
+      | Some c, Some cr => Some ((c, t) :: cr)
+      | _, _ => None
+      end
+    end.
+
+  Lemma enc_toks_bound ts toks :
+    enc_toks ts = Some toks -> forall c t, In (c, t) toks -> cid_of mh_digest (token_bytes t) = Some c.
+  Proof.
+    revert toks. induction ts as [|t0 ts IH]; intros toks E c t I; cbn [enc_toks] in E.
+    - inversion E; subst. destruct I.
+    - destruct (cid_of mh_digest (token_bytes t0)) as [c0|] eqn:C0; [|discriminate].
+      destruct (enc_toks ts) as [cr|]; [|discriminate]. inversion E; subst.
+      destruct I as [X|I]; [inversion X; subst; exact C0 | exact (IH cr eq_refl c t I)].
+  Qed.
+
+  Lemma enc_toks_map ts toks : enc_toks ts = Some toks -> map snd toks = ts.
+  Proof.
+    revert toks. induction ts as [|t0 ts IH]; intros toks E; cbn [enc_toks] in E.
+    - inversion E. reflexivity.
+    - destruct (cid_of mh_digest (token_bytes t0)) as [c0|]; [|discriminate].
+      destruct (enc_toks ts) as [cr|]; [|discriminate]. inversion E; subst. cbn [map snd]. f_equal. apply IH. reflexivity.
+  Qed.
+
+  (* ... so on a request written by the encoder the "blocks are bound" premise is a theorem, not
+     an assumption: the token store is the abstract world *)
+  Corollary serve_bytes_world_encoded m root ts toks :
+    enc_toks ts = Some toks ->
+    wf_ipld (message_ipld m) = true -> in_budget (message_ipld m) = true ->
+    let blocks := request_blocks toks root m in
+    NoDup (map fst blocks) ->
+    (forall t, In t ts ->
+       wf_ipld (token_ipld t) = true /\ in_budget (token_ipld t) = true /\ token_typed_ok t = true /\ u_fct t <> Some []) ->
     (forall c t, In (c, t) toks ->
        U_of blocks (lid c) = Some (view_token lid keys valid alg_of (canon_token t))) /\
     U_of blocks (lid root) = Some empty_token /\
     (forall l, ~ In l (vis_of (blocks ++ extb)) -> U_of blocks l = None).
   Proof.
-    intros W B blocks ND HT. split; [|split].
-    - intros c t I. destruct (HT c t I) as [Wt [Bt [Tt NF]]].
-      rewrite U_of_spec.
-      rewrite (B_of_app_in blocks extb c (token_bytes t) ND).
-      + cbn [option_map]. f_equal. apply view_block_bytes; assumption.
-      + apply in_or_app. left. apply in_map_iff. exists (c, t). auto.
-    - rewrite U_of_spec. rewrite (B_of_app_in blocks extb root (message_bytes m) ND).
-      + cbn [option_map]. f_equal. apply view_block_undecodable. apply message_not_a_token; assumption.
-      + apply in_or_app. right. left. reflexivity.
-    - intros l NI. rewrite U_of_spec. rewrite (B_of_none (blocks ++ extb) l NI). reflexivity.
+    intros E W B blocks ND HT.
+    assert (HT' : forall c t, In (c, t) toks ->
+       wf_ipld (token_ipld t) = true /\ in_budget (token_ipld t) = true /\ token_typed_ok t = true /\ u_fct t <> Some []).
+    { intros c t I. apply HT. rewrite <- (enc_toks_map ts toks E). apply in_map_iff. exists (c, t). auto. }
+    destruct (serve_bytes_world m root toks W B ND HT') as [H1 [_ [H3 H4]]].
+    split; [|split; [exact H3 | exact H4]].
+    intros c t I. apply H1; [exact I | exact (enc_toks_bound ts toks E c t I)].
   Qed.
 End Serve.
